@@ -122,7 +122,7 @@ def check_grid(p, z, e, n, h, ell, prj, origin):
                     'hemisphere_mirror', inp, [rm[0], rm[1]], [-lat, lon], call + ' vs ' + g2g_call(z, e, nm, hm, ell, prj))
     # (e) the object interface to the same conversion (CoordTM.geo, one of the property's observation points): the same latitude
     #     and longitude for the ellipsoid and projection requested, in whichever notation the result is asked for
-    if p.rng.random() < 0.15:
+    if p.rng.random() < 0.2:
         import geodepy.coord as CO
         import geodepy.angles as A
         nname, notation = p.rng.choice([('default', None), ('float', float), ('DEC', A.DECAngle), ('HP', A.HPAngle), ('GON', A.GONAngle),
@@ -130,10 +130,26 @@ def check_grid(p, z, e, n, h, ell, prj, origin):
         ocall = (f'CoordTM({z}, {e!r}, {n!r}, hemi_north={h == "north"}, projection={src_prj(prj)}).geo({src_ell(ell)}'
                  + ('' if notation is None else f', notation={nname}') + ')')
 
+        edited = prj is not K.isg and p.rng.random() < 0.35
+
         def via_object():
-            t = CO.CoordTM(z, e, n, hemi_north=(h == 'north'), projection=prj)
+            P = prj
+            if edited:
+                # a long-lived definition that was used once with another central scale / false easting and then edited in place:
+                # the conversion is that of the definition as it is at the time of the call
+                P = K.Projection(float(prj.falseeast) + 1000.0, prj.falsenorth, 0.9999 if float(prj.cmscale) != 0.9999 else 1.0,
+                                 prj.zonewidth, prj.initialcm)
+                try:
+                    CO.CoordTM(z, e, n, hemi_north=(h == 'north'), projection=P).geo(ell)
+                except Exception:  # noqa
+                    pass
+                P.falseeast, P.cmscale = prj.falseeast, prj.cmscale
+            t = CO.CoordTM(z, e, n, hemi_north=(h == 'north'), projection=P)
             g = t.geo(ell) if notation is None else t.geo(ell, notation)
             return [float(v) if isinstance(v, float) and not hasattr(v, 'dec') else float(v.dec()) for v in (g.lat, g.lon)]
+        if edited:
+            ocall = 'P = Projection(other scale and false easting); CoordTM(..., projection=P).geo(...); P edited in place to ' \
+                    + src_prj(prj) + '; ' + ocall
         ok, ro = p.guarded('coordtm-geo:raises', 'coord_objects', dict(inp, notation=nname), via_object, ocall)
         p.case('coord_objects', dict(inp, notation=nname))
         if ok:
